@@ -8,9 +8,20 @@ from problems import PB, number, res_worker, res_cumul
 from families.tasks import sample
 
 
-def _two_on_worker(b, k1, k2, opt2=False, sel=False, cumul=False):
-    """Two (or three) tasks using one resource; returns (tasks, resource ref)."""
+def _two_on_worker(b, k1, k2, opt2=False, sel=False, cumul=False, window=None):
+    """Two (or three) tasks using one resource; returns (tasks, resource ref).
+    window: (due, deadline, release) given to the FIRST task (its own time window)."""
     def mk(nm, k, optional=False):
+        t = mk0(nm, k, optional)
+        if window and nm == "A":
+            tk = b.p["tasks"][t - 1]
+            due, dl, rel = window
+            tk["due"] = [] if due is None else [due]
+            tk["deadline"] = dl
+            tk["release"] = [] if rel is None else [rel]
+        return t
+
+    def mk0(nm, k, optional=False):
         if k == "F1":
             return b.task(nm, "F", dur=1, optional=optional)
         if k == "F2":
@@ -52,6 +63,34 @@ def fam_C04(tier, seed):
     for (k1, k2), md, ivs in itertools.product(kinds, modes, ([[1, 2]], [[0, 1], [3, 4]], [[1, 3]], [[0, 4]], [[4, 6]])):
         b = PB(5, tag="ResourceUnavailable")
         _, res = _two_on_worker(b, k1, k2, **md)
+        b.con("ResourceUnavailable", res=res, intervals=ivs)
+        ps.append(b.done())
+    # interval lists that nest / overlap / touch / come unsorted
+    for (k1, k2), md, ivs in itertools.product([("F2", "F1"), ("V", "F1")], [dict(), dict(sel=True), dict(cumul=True)],
+                                               ([[0, 4], [1, 2]], [[1, 5], [2, 3]], [[0, 2], [1, 3]], [[2, 3], [0, 1]], [[1, 2], [2, 3]],
+                                                [[0, 5], [4, 5]])):
+        b = PB(6, tag="ResourceUnavailable-nested")
+        _, res = _two_on_worker(b, k1, k2, **md)
+        b.con("ResourceUnavailable", res=res, intervals=ivs)
+        ps.append(b.done())
+    for (k1, k2), ivs in itertools.product([("F2", "F1"), ("F3", "F1")], ([[0, 3], [1, 2]], [[0, 2], [1, 3]])):
+        b = PB(7, tag="ResourcePeriodicallyUnavailable-nested")
+        _, res = _two_on_worker(b, k1, k2)
+        b.con("ResourcePeriodicallyUnavailable", res=res, intervals=ivs, period=4, start=0, offset=0, end=[])
+        ps.append(b.done())
+    # the first task has its own time window (a due date that is or is not a deadline, a release date): the
+    # resource constraint counts / excludes it wherever it actually runs
+    for (k1, k2), window, (ivs, kind) in itertools.product(
+            [("F2", "F1"), ("V", "F1")], [(1, False, None), (2, False, None), (2, True, None), (None, True, 2), (2, False, 1)],
+            [([[2, 4, 1]], "max"), ([[2, 4, 0]], "max"), ([[1, 3, 1]], "exact"), ([[0, 2, 1]], "min"), ([[3, 5, 1]], "max")]):
+        b = PB(5, tag="WorkLoad+own-window")
+        _, res = _two_on_worker(b, k1, k2, window=window)
+        b.con("WorkLoad", res=res, intervals=ivs, kind=kind)
+        ps.append(b.done())
+    for (k1, k2), window, ivs in itertools.product(
+            [("F2", "F1"), ("V", "F1")], [(1, False, None), (2, False, None), (None, True, 2)], ([[2, 3]], [[1, 3]], [[3, 5]])):
+        b = PB(5, tag="ResourceUnavailable+own-window")
+        _, res = _two_on_worker(b, k1, k2, window=window)
         b.con("ResourceUnavailable", res=res, intervals=ivs)
         ps.append(b.done())
     # WorkLoad
